@@ -60,6 +60,7 @@ type Exec struct {
 	S        *Solver
 	globals  map[*ssa.Global]*Cell
 	pc       []*Term
+	pcSet    map[int]bool
 	prefix   []int
 	pos      int
 	decs     []int   // decisions taken on this path (prefix + new)
@@ -88,10 +89,11 @@ type Exec struct {
 	entry    string
 	pin      map[string]string
 	noSummary bool
+	Effects   func(what, mode string, obj Value)
 }
 
 func NewExec(p *Program, s *Solver, prefix []int) *Exec {
-	return &Exec{P: p, S: s, globals: map[*ssa.Global]*Cell{}, prefix: prefix, counters: map[string]int{},
+	return &Exec{P: p, S: s, pcSet: map[int]bool{}, globals: map[*ssa.Global]*Cell{}, prefix: prefix, counters: map[string]int{},
 		InputLbl: map[int]string{}, Reached: map[string]int{}, Funcs: map[*ssa.Function]bool{}, Unwind: 4096, MaxSteps: 20000000,
 		ext: map[string]interface{}{}}
 }
@@ -105,8 +107,49 @@ func (ex *Exec) addPC(t *Term) {
 		}
 		return
 	}
+	if ex.pcSet[t.ID] {
+		return
+	}
 	ex.pc = append(ex.pc, t)
+	ex.pcSet[t.ID] = true
+	if t.Op == "and" {
+		for _, c := range t.Args {
+			ex.pcSet[c.ID] = true
+		}
+	}
 	ex.S.Assert(t)
+}
+
+// known reports whether the path condition syntactically decides c.
+func (ex *Exec) decided(c *Term) (val, ok bool) {
+	if ex.pcSet[c.ID] {
+		return true, true
+	}
+	if ex.pcSet[Not(c).ID] {
+		return false, true
+	}
+	if c.Op == "and" {
+		all := true
+		for _, x := range c.Args {
+			if ex.pcSet[Not(x).ID] {
+				return false, true
+			}
+			if !ex.pcSet[x.ID] {
+				all = false
+			}
+		}
+		if all {
+			return true, true
+		}
+	}
+	if c.Op == "or" {
+		for _, x := range c.Args {
+			if ex.pcSet[x.ID] {
+				return true, true
+			}
+		}
+	}
+	return false, false
 }
 
 // Assume adds a constraint; aborts the path if it becomes infeasible.
@@ -127,6 +170,9 @@ func (ex *Exec) Assume(t *Term) {
 func (ex *Exec) Decide(c *Term) bool {
 	if c.IsConst() {
 		return c.B
+	}
+	if v, ok := ex.decided(c); ok {
+		return v // already decided on this path (deterministic: depends only on the path condition)
 	}
 	if ex.pos < len(ex.prefix) {
 		d := ex.prefix[ex.pos]
